@@ -125,6 +125,9 @@ def mk_df(data, dom, variant="int"):
     import pandas as pd
 
     df = pd.DataFrame(data, columns=COLS)
+    if len(df) and sum(map(sum, data)) % 3 == 1:
+        # the frame's index is not content: descending, gapped labels on every third data set
+        df.index = [3 * (len(df) - i) + 2 for i in range(len(df))]
     states = [list(range(c)) for c in dom]
     if variant.startswith("cat"):
         states = [[f"{COLS[i].lower()}{k}" for k in range(dom[i])] for i in range(3)]
